@@ -28,8 +28,8 @@ if os.path.exists(patch):
     try:
         rc, o = run("git apply %s" % patch, cwd=scratch)
         assert rc == 0, "patch does not apply: " + o
-        rc1, o1 = run("cargo test --offline --workspace 2>&1 | grep -E '^test result|FAILED|error' | head -5", cwd=scratch)
-        rc2, o2 = run("cargo test --offline --features async,http 2>&1 | grep -E '^test result|FAILED|error' | head -5", cwd=scratch)
+        rc1, o1 = run("cargo test --offline --workspace 2>&1 | grep -E '^test result|FAILED|^error' | head -5", cwd=scratch)
+        rc2, o2 = run("cargo test --offline --features async,http 2>&1 | grep -E '^test result|FAILED|^error' | head -5", cwd=scratch)
         meta["existing_tests_with_change"] = {"default": o1.strip().splitlines()[:2], "async_http": o2.strip().splitlines()[:2]}
         import re
         def passed(o, least):   # the change may add tests of its own; none may fail
